@@ -39,4 +39,9 @@ def run(tier, rep):
                             "notification run >= 120; distinct by content hash") % res["exhaustive_depth"]
     for v in res["violations"]:
         rep.violation(v["signature"], v)
+    if tier == "thorough":
+        from .. import miri
+        mr = common.rng("c20-miri")
+        corpus = [{"seq": "".join(mr.choice("01") for _ in range(mr.randrange(1, 40)))} for _ in range(300)] + [{"seq": "0" * n + "1" * k + "0" * 3} for n in (19, 20, 21, 25) for k in (1, 2)]
+        miri.run({"status_state": corpus}, [], rep)
     rep.assumptions += ["exact transition timing beyond what the statement fixes (e.g. Error exactly at the 20th failure) is not required; disagreements with the reference automaton are reported, not judged"]
